@@ -4,7 +4,7 @@
   and answer `ok`; `canon<TAB>default|keepall` answers the hex of the model's canonical IR of the
   last completed function.  The field layout is documented in go-src/ssa_export.go.
 -/
-import SfwModel.Model.Canon.Sem
+import SfwModel.Model.Canon.SemIso
 open Sfw Sfw.Canon
 namespace Driver
 
@@ -21,6 +21,8 @@ structure PendingFn where
 structure CanonState where
   pending : Option PendingFn := none
   last    : Option Func := none
+  /-- the function kept by `keep` (the OLD side of an `iso` query) -/
+  kept    : Option Func := none
 
 def CanonState.init : CanonState := {}
 
@@ -202,8 +204,19 @@ def canonStep (st : CanonState) (fs : List String) : CanonState × String :=
     | none => bad
     | some p =>
       match finishFn p with
-      | some f => ({ pending := none, last := some f }, "ok")
+      | some f => ({ st with pending := none, last := some f }, "ok")
       | none => bad
+  | ["keep"] =>
+    match st.last with
+    | none => bad
+    | some f => ({ st with kept := some f }, "ok")
+  | ["iso", instrMap, blockMap] =>
+    -- kept = old function, last = new function; maps as csv of new ids / block indices
+    match st.kept, st.last, parseCsvNat instrMap, parseCsvNat blockMap with
+    | some f, some g, some im, some bm =>
+      let m : Sem.Matching := { instr := im.toArray, block := bm.toArray }
+      (st, if Sem.isoCheck f g m then "1" else "0")
+    | _, _, _, _ => bad
   | ["wf"] =>
     match st.last with
     | none => bad
